@@ -1,4 +1,90 @@
-import LecModel
-import LecGen
+/-
+  C08 — Size queries agree with what encode actually produces.
+
+  `aligned_*`      the aligned-data-size query is the least multiple of k·(w/8) that is ≥ len;
+  `fragment_size`  fragment-size query + 80 = length of every fragment `encode` returns;
+  `min_encode`     minimum-encode-size = aligned size of 1;
+  `public_internal` the public query (element_size/8) and the internal one (w/8) coincide
+                   whenever the backend's element size equals the stored word size
+                   (true of every built-in backend: see `elementSize_*`);
+  dead descriptors: see C14 (`dead descriptor ⇒ every entry point errors`).
+-/
+import LecProofs.EncodeLemmas
+import LecProps.C07
 namespace LecProps.C08
+open Lec
+
+theorem aligned_multiple (k w len : Nat) : k * (w / 8) ∣ alignedSizeW k w len := by
+  unfold alignedSizeW; exact Nat.dvd_mul_left _ _
+
+theorem ceil_ge (len am : Nat) (ham : 0 < am) : len ≤ (len + am - 1) / am * am := by
+  have h1 := Nat.div_add_mod (len + am - 1) am
+  have h2 := Nat.mod_lt (len + am - 1) ham
+  rw [Nat.mul_comm] at h1
+  omega
+
+theorem ceil_lt (len am : Nat) (ham : 0 < am) : (len + am - 1) / am * am < len + am := by
+  have h1 := Nat.div_add_mod (len + am - 1) am
+  rw [Nat.mul_comm] at h1
+  omega
+
+theorem ceil_least (len am q : Nat) (ham : 0 < am) (hl : len ≤ am * q) :
+    (len + am - 1) / am * am ≤ am * q := by
+  rw [Nat.mul_comm am q]
+  apply Nat.mul_le_mul_right
+  rw [Nat.div_le_iff_le_mul_add_pred ham]
+  rw [Nat.mul_comm] at hl
+  rw [Nat.mul_comm am q]
+  omega
+
+theorem aligned_ge (k w len : Nat) (hk : 0 < k) (hw : 8 ≤ w) : len ≤ alignedSizeW k w len :=
+  ceil_ge len _ (Nat.mul_pos hk (Nat.div_pos hw (by decide)))
+
+theorem aligned_least (k w len x : Nat) (hk : 0 < k) (hw : 8 ≤ w) (hx : k * (w / 8) ∣ x) (hl : len ≤ x) :
+    alignedSizeW k w len ≤ x := by
+  obtain ⟨q, rfl⟩ := hx
+  exact ceil_least len _ q (Nat.mul_pos hk (Nat.div_pos hw (by decide))) hl
+
+/-- closed form: ⌈len / (k·w/8)⌉ · (k·w/8). -/
+theorem aligned_ceil (k w len : Nat) :
+    alignedSizeW k w len = (len + k * (w / 8) - 1) / (k * (w / 8)) * (k * (w / 8)) := rfl
+
+theorem aligned_lt_next (k w len : Nat) (hk : 0 < k) (hw : 8 ≤ w) :
+    alignedSizeW k w len < len + k * (w / 8) :=
+  ceil_lt len _ (Nat.mul_pos hk (Nat.div_pos hw (by decide)))
+
+theorem min_encode (be : Backend) (i : Inst) : minEncodeSizeQ be i = alignedSizeQ be i 1 := rfl
+
+theorem public_internal (be : Backend) (i : Inst) (h : be.elementSize = i.w) (len : Nat) :
+    alignedSizeQ be i len = alignedSize i len := by
+  simp [alignedSizeQ, alignedSize, h]
+
+theorem elementSize_rs (G : Nat → Nat → Nat) (k m : Nat) : (rsBackend G k m).elementSize = 16 := rfl
+theorem elementSize_xor (T : XorTable) : (xorBackend T).elementSize = 32 := rfl
+theorem elementSize_null : nullBackend.elementSize = 32 := rfl
+
+/-- the fragment-size query equals the payload length of every fragment encode produces. -/
+theorem fragment_size (env : Env) (be : Backend) (i : Inst) (data : Bytes) (frags : List Bytes)
+    (hbe : EncodeOK be i.k i.m) (hlen : data.length < 2 ^ 31)
+    (h : encode env be i data = .ok frags) :
+    ∀ f ∈ frags, f.length = fragmentSizeQ i data.length + 80 := by
+  intro f hf
+  have := (LecProps.C07.encode_wire env be i data frags hbe hlen h).2.1 f hf
+  simp only [blockSize] at this
+  simp only [fragmentSizeQ]; omega
+
+/-- the stored payload-size field equals the query as well. -/
+theorem size_field (env : Env) (i : Inst) (idx orig bs : Nat) (p : Bytes) :
+    (specHeader env i idx orig bs p).md.size = bs := rfl
+
+/-- non-vacuity: k = 10, w = 16, len = 1 is aligned to 20 and every fragment gets 2 bytes. -/
+example : alignedSizeW 10 16 1 = 20 ∧ alignedSizeW 10 16 20 = 20 ∧ alignedSizeW 10 16 21 = 40 ∧
+    alignedSizeW 10 16 0 = 0 := by decide
+
+#print axioms aligned_multiple
+#print axioms aligned_ge
+#print axioms aligned_least
+#print axioms aligned_lt_next
+#print axioms fragment_size
+#print axioms public_internal
 end LecProps.C08
